@@ -41,5 +41,12 @@ pub fn autoplay(millis: u64) {
             None => break,
         };
         game.push_history(next_move);
+
+        // Same limit as the UCI position command: the per-ply state stack of the game
+        // is bounded and the search needs room on top of the game's own length
+        if game.len() >= 400 {
+            println!("Game became too long, stopping");
+            break;
+        }
     }
 }
